@@ -358,6 +358,19 @@
         assert_requested_are_reported("{% block b %}{{ super }}{% endblock %}");
     }
 
+    // listed known finding: a block body evaluated through self.name() outside the scope it was written in
+//# ob name=undeclared_block_reinvoked_native role=native_bounded fn=compiler::meta::track_walk(Block) kind=bounded bound="2 templates: a block inside a for loop / before a set, re-invoked through self.b() where the loop variable / the set name is not bound" stmt="every key the render looks up in the context is reported, also a name that is bound at the place a block is written but not at the place self.block() re-invokes it"
+    fn undeclared_block_reinvoked_native() {
+        assert_requested_are_reported("{% for x in [1] %}{% block b %}{{ x }}{% endblock %}{% endfor %}{{ self.b() }}");
+        assert_requested_are_reported("{{ self.b() }}{% set y = 1 %}{% block b %}{{ y }}{% endblock %}");
+    }
+
+    // listed known finding: `self` enclosed by a macro that calls self.block()
+//# ob name=undeclared_self_in_macro_native role=native_bounded fn=compiler::meta::track_walk(Macro) kind=bounded bound="1 template: a macro whose body calls self.b()" stmt="every key the render looks up in the context is reported, also `self` when a macro that calls self.block() builds its closure"
+    fn undeclared_self_in_macro_native() {
+        assert_requested_are_reported("{% block b %}x{% endblock %}{% macro m() %}{{ self.b() }}{% endmacro %}{{ m() }}");
+    }
+
     // listed known finding: a recursive macro's own name
 //# ob name=undeclared_recursive_macro_native role=native_bounded fn=compiler::meta::track_walk(Macro) kind=bounded bound="1 template: a macro that calls itself" stmt="every key the render looks up in the context is reported, also the own name of a recursive macro (looked up when its closure is built)"
     fn undeclared_recursive_macro_native() {
